@@ -66,6 +66,20 @@ class C16(Prop):
                 d3 = dict(d1, n=2)
                 api = r.choice(["json", "standjson"])
                 docs = [json.dumps(d).encode() for d in (d1, d2, d3)]
+            elif r.chance(1, 8):
+                # one matcher over two SIBLING keys of which one is a textual prefix of the other (user / username): both are masked
+                if r.chance(1, 2):
+                    paths = r.shuffle(["user", "username"])
+                    ms = [{"kind": "any", "paths": paths}]
+                    mk = lambda tok, un, role: json.dumps({"user": {"id": 1, "token": tok}, "username": un, "role": role}).encode()
+                    docs = [mk("aaa", "alice", "admin"), mk("bbb", "bob", "admin"), mk("aaa", "alice", "guest")]
+                    api = r.choice(["json", "standjson"])
+                else:
+                    paths = r.shuffle(["$.created", "$.createdBy"])
+                    ms = [{"kind": "any", "paths": paths}]
+                    mk = lambda at, by, role: ("created:\n  at: %s\ncreatedBy: %s\nrole: %s\n" % (at, by, role)).encode()
+                    docs = [mk("2024-01-01", "alice", "admin"), mk("2025-02-02", "bob", "admin"), mk("2024-01-01", "alice", "guest")]
+                    api = "yaml"
             elif r.chance(1, 6):
                 # numbers are compared as TEXT: integers beyond 2^53 that differ in the low bits, and two spellings of one
                 # number, are different formatted values at an unmasked path
